@@ -413,7 +413,11 @@ func runOneBenign(m Benign, repo string, baseline map[string]bool, pid string) B
 		}
 	}
 	exe, _ := os.Executable()
-	out, err := exec.Command(exe, "dump", "all", "--bad", "--json", "--repo", tmp).Output()
+	what := "all"
+	if pid != "" {
+		what = pid // only the rules serving the property (thorough tier): much cheaper
+	}
+	out, err := exec.Command(exe, "dump", what, "--bad", "--json", "--repo", tmp).Output()
 	if err != nil && len(out) == 0 {
 		res.Status, res.Note = "error", fmt.Sprintf("%v", err)
 		return res
